@@ -711,6 +711,8 @@ primaryexpr(struct scope *s)
 		}
 		if (strpbrk(tok.lit, base == 16 ? ".pP" : ".eE")) {
 			/* floating constant */
+			if (base == 16 && !strpbrk(tok.lit, "pP"))
+				error(&tok.loc, "hexadecimal floating constant '%s' requires an exponent", tok.lit);
 			e->u.constant.f = strtod(tok.lit, &end);
 			if (end == tok.lit)
 				error(&tok.loc, "invalid floating constant '%s'", tok.lit);
